@@ -847,6 +847,24 @@ func c11GenScenario(r *hx.RNG, kind string) c11Scenario {
 			}
 			sc.Runs = append(sc.Runs, run)
 		}
+	case "alias256":
+		// relaxed source checking, same target, identifiers that agree MODULO 256 (and modulo 65536)
+		// only: SACK initial sequence numbers 256·k apart, TCP id bases 256·k apart, echo identifiers
+		// 256 apart — the runs are FlowsDistinct (disjoint windows) and must stay isolated
+		v := hx.Pick(r, []string{"sack", "sack", "tcp", "icmp4"})
+		kd := strings.TrimRight(v, "46")
+		target, tport := hx.Pick(r, c11Targets), c11DefaultPort(kd, r)
+		min, max := c11TTLs(r)
+		for i, n := 0, r.Range(2, 3); i < n; i++ {
+			run := g.run(v, target, tport, min, max, true)
+			if i > 0 {
+				k := uint32(r.Range(1, 200))
+				run.Cfg.ISN = sc.Runs[0].Cfg.ISN + 256*k*uint32(i)
+				run.Cfg.BaseID, run.Cfg.Seq = sc.Runs[0].Cfg.BaseID+uint16(256*uint32(i)), sc.Runs[0].Cfg.Seq
+				run.Cfg.EchoCounter = sc.Runs[0].Cfg.EchoCounter + 256*uint32(i)
+			}
+			sc.Runs = append(sc.Runs, run)
+		}
 	case "overlap":
 		// contrast: two runs that are NOT FlowsDistinct (relaxed source check, same target, same
 		// identifiers) — the hypothesis of the isolation theorems is necessary
@@ -953,7 +971,7 @@ func c11ScenarioJSON(sc c11Scenario, shared, solo []string, foreign []int) map[s
 
 func c11Isolation(t *testing.T, rep *hx.Report, orc *hx.Oracle, rng *hx.RNG, env hx.Env) {
 	n := env.Scale(3000, 60000)
-	kinds := []string{"mixed", "mixed", "mixed", "request", "request", "aligned", "aligned", "overlap", "f11"}
+	kinds := []string{"mixed", "mixed", "mixed", "request", "request", "aligned", "aligned", "overlap", "f11", "alias256"}
 	var scs []c11Scenario
 	for i := 0; i < n; i++ {
 		scs = append(scs, c11GenScenario(rng.Fork(), kinds[i%len(kinds)]))
